@@ -60,8 +60,11 @@ def core(max_tiles):
 @st.composite
 def sampled(draw, max_side=6):
     b = draw(boards.boards(max_len=max_side, max_wid=max_side))
-    if draw(st.integers(0, 4)) == 0:
+    if draw(st.integers(0, 3)) == 0:
         b = dict(b, entry="manual")
+        if draw(st.booleans()):
+            # hand-made boards may carry fractional tile rewards (the random generator only emits integers)
+            b["rewards"] = [[draw(st.sampled_from((0, 1, 2, 0.5, 1.25, 0.75, 2.5, 3))) for _ in row] for row in b["rewards"]]
     return b
 
 
